@@ -586,3 +586,23 @@ def gen_md(seed, tier):
         b.ops.append({"op": "render", "w": 1, "entry": rng.choice(["Render", "RenderTo"])})
         out.append(b.ops)
     return out
+
+
+def gen_total(seed, tier):
+    """C09: random longer build sequences with size-lying items; every renderer/style at the end."""
+    rng = random.Random(seed * 373587883 + 9)
+    n = 200 if tier == "quick" else 5000
+    out = []
+
+    def item():
+        r = rng.random()
+        if r < 0.3:
+            return rnd_obj(rng, TEXTS)
+        return rnd_text_item(rng, sized=0.3)
+    for i in range(n):
+        b = GridBuilder(rng)
+        for _ in range(rng.randint(0, 30)):
+            b.step(maxcells=rng.choice([0, 1, 2, 4, 11]), items=item)
+        b.ops.append({"op": "renderall", "t": 1})
+        out.append(b.ops)
+    return out
